@@ -176,6 +176,28 @@ CHECKS["C05"] = dict(
          "module each run; ZipFile.extract contract assumed; the .tmp sibling counts as part of the destination mechanism.",
     ref="6/C05")
 
+# ---- additions made while strengthening the checks against independently seeded changes (rounds 2 and 3); appended to the texts above
+ADDED = {
+    "C02": " Labels are judged where they enter the client: every successful decryption must be attributable to an honestly-labelled message that reached the Order machine; "
+           "configurations with starved delivery and with three phases sent in a burst; a vacuity witness requires that an early authentic injection is accepted and delivered.",
+    "C04": " Text messages and offered names additionally travel through the real json round trip as CONCRETE samples (json is C code; sampled, not solver-decided); "
+           "_write_directory over solver-chosen archive member lists incl. empty directories.",
+    "C06": " Job read_modes: solver-chosen schedules mixing receive_record() and consumer mode (symbolic expected byte count) over a backlog; every record reaches one sink, in sent order.",
+    "C08": " Reconnect attempts that fail before onOpen are schedule actions; verdict/resource clauses are judged also after an internal failure the configuration did not provoke.",
+    "C09": " Reconnect attempts that die during the WebSocket negotiation (after a first successful connection) are part of the loss model.",
+    "C11": " TCP may split a chunk at its half, after its first byte or before its last byte (schedule actions).",
+    "C12": " Job select_order: records queued between KCM and select() reach the manager in order for every select point and every split byte.",
+    "C13": " A write after the local close is refused in every later state of the subchannel, also once it is fully closed.",
+    "C14": " The input_code() helper's refresh_nameplates()/get_*_completions() are schedule actions in two configurations.",
+    "C15": " The Cooperator task stand-in counts pauses like twisted's CooperativeTask.",
+    "C16": " Mode backpressure: the transport pauses/resumes Outbound at solver-chosen events while the peer answers every ping it receives.",
+    "C18": " Configuration with an injected internal error (once-only / closed-last also hold on that path).",
+    "C19": " The real _rlcompleter.CodeInputter on the real Input machine with symbolic TAB text and final text: completions extend what was typed, an accepted entry sets exactly "
+           "the typed code on the claimed nameplate, an edited claimed nameplate is refused.",
+}
+for _k, _v in ADDED.items():
+    CHECKS[_k]["text"] = CHECKS[_k]["text"].rstrip() + _v
+
 NOT_YET = {}
 
 NA = {}
